@@ -86,7 +86,7 @@ def _make_world(rng, layered=True, n_flat=None):
 
 
 class TermGen:
-    ALL = frozenset(["complex", "divmod", "keys", "topkeys", "builtins", "eqne"])
+    ALL = frozenset(["complex", "divmod", "keys", "topkeys", "builtins", "eqne", "mathfn"])
 
     def __init__(self, rng, profile="full"):
         self.rng = rng
@@ -97,16 +97,18 @@ class TermGen:
         elif profile == "plain":         # arithmetic, comparisons, calls, nested computed keys
             profile = frozenset(["keys"])
         self.profile = frozenset(profile)
+        self.floats = FLOATS
+        self.ints = INTS
 
     def lit(self, kind):
         r = self.rng
         if kind == "int":
-            return ["lit", enc(r.choice(INTS))]
+            return ["lit", enc(r.choice(self.ints))]
         x = r.random()
         if x < 0.55:
-            return ["lit", enc(r.choice(FLOATS))]
+            return ["lit", enc(r.choice(self.floats))]
         if x < 0.9:
-            return ["lit", enc(r.choice(INTS))]
+            return ["lit", enc(r.choice(self.ints))]
         if x < 0.95:
             return ["lit", enc(True)]
         return ["lit", enc(complex(1.0, -2.0))] if "complex" in self.profile else ["lit", enc(2.5)]
@@ -181,6 +183,8 @@ class TermGen:
             nd = ["lit", enc(r.choice([0, 1, 2, -1]))] if r.random() < 0.7 else (self.ref(readable, "int") or ["lit", enc(1)])
             return ["bi", "round", self.dterm(readable, depth - 1), nd]
         if x < 0.79:
+            if "mathfn" not in self.profile:
+                return ["bi", "abs", self.dterm(readable, depth - 1)]
             return ["bi", r.choice(["trunc", "floor", "ceil"]), self.dterm(readable, depth - 1)]
         if x < 0.80 and "divmod" in self.profile:
             return ["bi", "divmod", self.dterm(readable, depth - 1), self.term(readable, depth - 1)]
@@ -304,10 +308,15 @@ class HistoryGen:
                 return None
             t = r.choice(cands)
             v = r.choice(t["choices"]) if "choices" in t else leaf_value(r, t["kind"])
+            if r.random() < 0.12 and t["kind"] in ("float", "int", "bool"):
+                v = self.same_value_other_type(t, v)
             return ["set", t["path"], ["v", enc(v)]]
         if kind == "val":
             t = r.choice([l for l in nonleaf if s.ckey(l["path"]) not in tt])
-            return ["set", t["path"], ["v", enc(leaf_value(r, "float"))]]
+            v = leaf_value(r, "float")
+            if r.random() < 0.12:
+                v = self.same_value_other_type(t, v)
+            return ["set", t["path"], ["v", enc(v)]]
         if kind == "iop":
             cands = [l for l in self.locs if l["kind"] in ("float", "int") and s.ckey(l["path"]) not in tt
                      and (l["group"] != "leaf" or not self.layered or True)]
@@ -319,7 +328,12 @@ class HistoryGen:
                 op = r.choice(["add", "sub", "mul", "truediv", "add", "sub", "floordiv", "mod", "pow"])
             # once values are stale (load registers without evaluating) the current value must not
             # be captured into a definition: no deferred operand on an undefined location
-            if r.random() < 0.6 or t["group"] == "leaf" or (s.stale and s.ckey(t["path"]) not in s.defs):
+            cur = self._cur(t)
+            plain_capture = s.ckey(t["path"]) not in s.defs and (
+                s.stale or not isinstance(cur, (int, float)) or cur != cur or cur in (float("inf"), float("-inf")))
+            # (an in-place update with an expression operand on an undefined location captures the current value as
+            #  a literal: only finite numbers are literals of the expression language)
+            if r.random() < 0.6 or t["group"] == "leaf" or plain_capture:
                 v = r.choice([0, 1, 2, 3]) if op in ("lshift", "rshift", "pow") else leaf_value(r, "int" if isint else "float")
                 return ["iop", t["path"], op, ["v", enc(v)]]
             rd = self.readable_for(t)
@@ -398,6 +412,22 @@ class HistoryGen:
                 return None
             return ["unreg_task", r.choice(names)]
         return None
+
+    def same_value_other_type(self, l, default):
+        """A value that compares == to the current content but has another type (2.0 -> 2, 1 -> True,
+        3 -> 3.0): the assignment must still take effect (type is part of the value)."""
+        cur = self._cur(l)
+        if l["kind"] == "int" and (not isinstance(cur, int) or isinstance(cur, bool)):
+            return default
+        if isinstance(cur, bool):
+            return int(cur) if l["kind"] != "bool" else default
+        if isinstance(cur, int):
+            if l["kind"] == "int":
+                return bool(cur) if cur in (0, 1) else default   # stays usable by bitwise operators
+            return float(cur) if abs(cur) < 2 ** 50 else default
+        if isinstance(cur, float) and cur == cur and abs(cur) < 2 ** 50 and cur == int(cur):
+            return int(cur) if l["kind"] == "float" else default
+        return default
 
     def _cur(self, l):
         try:
